@@ -315,6 +315,16 @@ def rule_d(res: Results, idx: Index) -> None:
                                 universe = {cmp.comparators[0].value}
                             else:
                                 excluded.add(cmp.comparators[0].value)
+            # the helper idiom `_is_standard_onnx_node(node, "Op")` is a name test as well
+            for e, want in conds:
+                inner, pos = e, want
+                while isinstance(inner, ast.UnaryOp) and isinstance(inner.op, ast.Not):
+                    inner, pos = inner.operand, not pos
+                if isinstance(inner, ast.Call) and (call_name(inner) or "").split(".")[-1] == "_is_standard_onnx_node" and len(inner.args) == 2 and isinstance(inner.args[1], ast.Constant):
+                    if pos:
+                        universe = {inner.args[1].value} if universe is None else (universe & {inner.args[1].value})
+                    else:
+                        excluded.add(inner.args[1].value)
             reach = (universe if universe is not None else all_ops) - excluded
             n += 1
             bad = sorted(o for o in reach if _dtype_preserving(o) is False)
